@@ -15,6 +15,29 @@ def _finally_blocks(fn: FuncInfo) -> List[ast.Try]:
     return [n for n in walk_shallow(fn.node) if isinstance(n, ast.Try) and n.finalbody]
 
 
+def _fold_inliner_aliases(fn: FuncInfo) -> None:
+    """A private helper spliced into `fn` by the loader (N9) leaves alias locals for its parameters (`_helper__q = q`). The rules
+    below name the queue / the relay handle by the caller's own variable: rename such single-assignment aliases of a plain local
+    back to it (semantically neutral, in place, idempotent)."""
+    assigned: Dict[str, int] = {}
+    for n in ast.walk(fn.node):
+        if isinstance(n, ast.Name) and isinstance(n.ctx, ast.Store):
+            assigned[n.id] = assigned.get(n.id, 0) + 1
+    alias = {}
+    for n in ast.walk(fn.node):
+        if isinstance(n, ast.Assign) and len(n.targets) == 1 and isinstance(n.targets[0], ast.Name) and isinstance(n.value, ast.Name) and "__" in n.targets[0].id \
+                and assigned.get(n.targets[0].id) == 1 and assigned.get(n.value.id, 0) <= 1:
+            alias[n.targets[0].id] = n.value.id
+    if not alias:
+        return
+    for n in ast.walk(fn.node):
+        if isinstance(n, ast.Name) and n.id in alias and isinstance(n.ctx, ast.Load):
+            tgt = n.id
+            while tgt in alias:
+                tgt = alias[tgt]
+            n.id = tgt
+
+
 def _in(node: ast.AST, roots: List[ast.stmt]) -> bool:
     return any(node is x for r in roots for x in ast.walk(r))
 
@@ -165,6 +188,7 @@ def run(p: Program, rep: Report, tier: str) -> None:
             continue
         qd = qdefs[0]
         qname = ast.unparse(qd.targets[0] if isinstance(qd, ast.Assign) else qd.target)
+        _fold_inliner_aliases(rs)
         qkind = ast.unparse(qd.value.func)
         ms = next((k.value for k in qd.value.keywords if k.arg == "maxsize"), qd.value.args[0] if qd.value.args else None)
         bounded = isinstance(ms, ast.Constant) and isinstance(ms.value, int) and ms.value > 0
@@ -296,7 +320,16 @@ def run(p: Program, rep: Report, tier: str) -> None:
             # running relay does nothing and of a not-yet-started one removes it - only the joins wait for the thread
             settle_kinds = ("cancel", "exception", "result") if side == "asgi" else ("exception", "result")
             settle = [c for c in calls_in(rs) if isinstance(c.func, ast.Attribute) and c.func.attr in settle_kinds and any(_in(c, t.finalbody) for t in fins)]
-            first_settle = min((c.lineno for c in settle), default=None)
+            # statement ORDER, not line numbers: code spliced in from a private helper keeps the helper's line numbers
+            _ord: Dict[int, int] = {}
+
+            def _number(node: ast.AST) -> None:
+                _ord[id(node)] = len(_ord)
+                for ch in ast.iter_child_nodes(node):
+                    _number(ch)
+            _number(rs.node)
+            _pos = lambda n_: _ord.get(id(n_), n_.lineno * 10000)  # noqa: E731
+            first_settle = min((_pos(c) for c in settle), default=None)
             drains = []
             for t in fins:
                 for n in ast.walk(ast.Module(body=t.finalbody, type_ignores=[])):
@@ -308,7 +341,26 @@ def run(p: Program, rep: Report, tier: str) -> None:
                     if isinstance(n, ast.Try) and any("Empty" in ast.unparse(h.type) for h in n.handlers if h.type is not None) and len(n.body) == 1 and isinstance(n.body[0], ast.While) \
                             and isinstance(n.body[0].test, ast.Constant) and n.body[0].test.value is True and f"{qname}.get_nowait(" in ast.unparse(n.body[0]):
                         drains.append(n)
-            if drains and first_settle is not None and min(d.lineno for d in drains) < first_settle:
+            # the drain moved into a private helper that is handed the queue: `self._drain_until_done(push_future, q)`
+            for t in fins:
+                for c in ast.walk(ast.Module(body=t.finalbody, type_ignores=[])):
+                    if not isinstance(c, ast.Call) or not any(isinstance(a_, ast.Name) and a_.id == qname for a_ in c.args):
+                        continue
+                    try:
+                        h = p.resolve_call(rs, c)
+                    except Exception:
+                        h = None
+                    if not isinstance(h, FuncInfo) or not h.name.startswith("_"):
+                        continue
+                    i_ = next(i for i, a_ in enumerate(c.args) if isinstance(a_, ast.Name) and a_.id == qname)
+                    hp_ = [x for x in h.params if x not in ("self", "cls")] if h.cls is not None and h.params[:1] in (["self"], ["cls"]) else list(h.params)
+                    if i_ >= len(hp_):
+                        continue
+                    qn_ = hp_[i_]
+                    for n in ast.walk(h.node):
+                        if isinstance(n, ast.While) and (f"{qn_}.empty()" in ast.unparse(n.test) or "done()" in ast.unparse(n.test)) and f"{qn_}.get" in ast.unparse(ast.Module(body=n.body, type_ignores=[])):
+                            drains.append(c)
+            if drains and first_settle is not None and min(_pos(d) for d in drains) < first_settle:
                 rep.ok("R6.3", f"{side}: the consumer empties the queue before it cancels/awaits the relay, so the relay's final {qname}.put(None) has room")
             else:
                 rep.violation("R6.3", construct(rs, text="relay settled without emptying the queue first"), where(rs, settle[0] if settle else rs.node),
